@@ -423,7 +423,11 @@ def iter_case(draw):
             "outer": draw(st.dictionaries(st.sampled_from(["a", "variable", "k"]),
                                           st.one_of(st.integers(0, 3), st.fixed_dictionaries({"name": st.sampled_from(["x", "q"])})),
                                           max_size=3)),
-            "bare_value": draw(st.booleans()), "foreign": draw(st.integers(0, 2))}
+            "bare_value": draw(st.booleans()), "foreign": draw(st.integers(0, 2)),
+            # how the bins to iterate are selected (the default selects histograms), and whether a second
+            # histogram with the same edges and another variable follows in the same flow
+            "select": draw(st.sampled_from(["default", "default", "class", "func", "classes"])),
+            "second": draw(st.booleans())}
 
 
 def judge_iter(case):
@@ -454,7 +458,33 @@ def judge_iter(case):
     outer_snapshot = copy.deepcopy(outer_ctx)
     foreign = [7, ("s", {"z": 1})][:case["foreign"]]
     flow = foreign[:1] + [val] + foreign[1:]
-    out = list(IterateBins().run(iter(flow)))
+    sel = case.get("select", "default")
+
+    def mk_el():
+        if sel == "class":
+            return IterateBins(select_bins=histogram)
+        if sel == "func":
+            return IterateBins(select_bins=lambda content: isinstance(content, histogram) and content.dim == 1)
+        if sel == "classes":
+            return IterateBins(select_bins=[histogram, int])
+        return IterateBins()
+    out = list(mk_el().run(iter(flow)))
+    if case.get("second"):
+        # a second histogram with equal edges and another variable in the same flow: every value gets what
+        # it gets when it is iterated alone (names derived from the variable included)
+        def twin_val(name):
+            c2 = copy.deepcopy(outer_snapshot)
+            c2["variable"] = {"name": name} if dim == 1 else {"name": name, "dim": 2, "combine": [{"name": name + "1"}, {"name": name + "2"}]}
+            return (histogram(copy.deepcopy(edges), nest([], 0)), c2)
+        keep = dict(objs)
+        joint = list(mk_el().run(iter([twin_val("u"), twin_val("w"), twin_val("u")])))
+        alone = [r for nm in ("u", "w", "u") for r in mk_el().run(iter([twin_val(nm)]))]
+        objs.clear()
+        objs.update(keep)
+        if [sv(r)[1] for r in joint] != [sv(r)[1] for r in alone]:
+            diff = [(sv(a)[1], sv(b)[1]) for a, b in zip(joint, alone) if sv(a)[1] != sv(b)[1]][:1]
+            raise Violation("iteratebins-result-depends-on-other-histograms-in-the-flow",
+                            "edges %s: iterated in one flow with histograms of other variables a cell gets %s, alone %s" % (edges, short(diff[0][0], 300) if diff else len(joint), short(diff[0][1], 300) if diff else len(alone)))
     exp_n = len(cells) + len(foreign)
     if len(out) != exp_n:
         raise Violation("iteratebins-wrong-number-of-values", "edges %s: %d values for %d cells" % (edges, len(out) - len(foreign), len(cells)))
@@ -478,7 +508,7 @@ def judge_iter(case):
         for b in range(a):
             if shared_mutables(sv(cell_out[a])[1].get("bins"), sv(cell_out[b])[1].get("bins")):
                 raise Violation("iteratebins-contexts-share-objects", "cells %d and %d share context.bins" % (a, b))
-    return {"nontrivial": len(cells) >= 2, "classes": ["dim:%d" % dim, "cells:%d" % min(len(cells), 6)]}
+    return {"nontrivial": len(cells) >= 2, "classes": ["dim:%d" % dim, "cells:%d" % min(len(cells), 6), "select:" + sel]}
 
 
 # ---- MapBins ----------------------------------------------------------------------------------------
@@ -772,7 +802,7 @@ CHECKS = [
           rule="edges (ints, floats, lena-style meshes with negative lower parts; <= 6 per axis) x 0-20 values whose coordinates are edges, their float neighbours, midpoints, far outside, +-5e-324 x analyses of 0-3 pre-elements "
                "(in-place context mutator, getter, typed Variable, Filter, Slice) + accumulator (sum, count, store, per-value store, 0-3 results) + optional post element, bare or as sequence; every fill under a step budget. "
                "Non-trivial = >= 2 cells filled with a border and an outside value, or a context-mutating pre-element."),
-    Check("iterate_bins", judge_iter, strategy=lambda tier: iter_case(), quick=1000, thorough=10000,
+    Check("iterate_bins", judge_iter, strategy=lambda tier: iter_case(), quick=3000, thorough=10000,
           rule="histograms of histograms (1-2 dim, cells with or without context, outer context with or without variable, foreign values around): one value per cell in row-major order, the very cell object, "
                "bin.edges of that cell, context.bins an unshared copy of the outer context. Non-trivial = >= 2 cells."),
     Check("map_bins", judge_map, strategy=lambda tier: map_case(), quick=2000, thorough=20000,
